@@ -20,10 +20,12 @@ package main
 import (
 	"bytes"
 	"context"
+	"encoding/binary"
 	"encoding/json"
 	"errors"
 	"fmt"
 	"runtime"
+	"sort"
 	"strings"
 	"sync"
 	"time"
@@ -31,8 +33,11 @@ import (
 	"diagonal.works/b6"
 	"diagonal.works/b6/encoding"
 	"diagonal.works/b6/ingest"
+	"diagonal.works/b6/ingest/compact"
 	"diagonal.works/b6/osm"
+	pb "diagonal.works/b6/osm/proto"
 	"github.com/golang/geo/s2"
+	"google.golang.org/protobuf/proto"
 	"verifharness/hx"
 )
 
@@ -45,6 +50,8 @@ type Run struct {
 	Once  bool
 	Multi bool
 	Y     uint64
+	World string   // eachfeature: direct | basic | overlay | compact
+	Kinds []string // pbf: kind of every blob (h n w r p m); eachfeature: kind of every feature (p a A r)
 }
 
 var protos = []string{"eachitem", "memread", "pbf", "eachfeature", "modtags"}
@@ -66,7 +73,27 @@ func (r *Run) opText() string {
 	if r.Multi {
 		multi = 1
 	}
-	return fmt.Sprintf("run p=%s g=%d mp=%d sizes=%s fail=%s mode=%s multi=%d y=%d", r.Proto, r.G, r.MP, hx.List(sz), hx.List(fl), mode, multi, r.Y)
+	extra := ""
+	if r.Proto == "pbf" {
+		extra = " kinds=" + hx.List(r.Kinds)
+	}
+	if r.Proto == "eachfeature" {
+		ph := make([]string, len(r.Sizes))
+		for i := range ph {
+			ph[i] = fmt.Sprint(r.phase(i))
+		}
+		extra = " w=" + r.World + " kinds=" + hx.List(r.Kinds) + " ph=" + hx.List(ph)
+	}
+	return fmt.Sprintf("run p=%s g=%d mp=%d sizes=%s fail=%s mode=%s multi=%d y=%d%s", r.Proto, r.G, r.MP, hx.List(sz), hx.List(fl), mode, multi, r.Y, extra)
+}
+
+// phase of feature i: MutableOverlayWorld.EachFeature first enumerates the overlay's own features (phase 0), then
+// the base world's (phase 1). Feature 1 is in both worlds (the base copy is filtered out, silently).
+func (r *Run) phase(i int) int {
+	if r.World == "overlay" && !(i%3 == 0 || i == 1) {
+		return 1
+	}
+	return 0
 }
 
 // ---- the callback ---------------------------------------------------------------------------
@@ -79,6 +106,7 @@ type recorder struct {
 	events []string
 	failed map[[2]int]bool // sub-items that have already failed once (mode=once)
 	fails  map[[2]int]bool
+	layout string // compact world: the buckets of every feature block, as found in the built index
 }
 
 func newRecorder(r *Run) *recorder {
@@ -137,6 +165,9 @@ func (rec *recorder) answer(err error) string {
 	out := "nil"
 	if err != nil {
 		out = "err"
+	}
+	if rec.layout != "" {
+		return out + " " + hx.List(rec.events) + " lay=" + rec.layout
 	}
 	return out + " " + hx.List(rec.events)
 }
@@ -221,8 +252,61 @@ func runMemRead(r *Run, rec *recorder) error {
 	return ingest.MemoryFeatureSource(fs).Read(ingest.ReadOptions{Goroutines: r.G}, emit, context.Background())
 }
 
-// pbf: item 0 is the header blob NewWriter emits (sizes[0] must be 0); data blob k holds sizes[k] >= 1 nodes
-// with ids k*1000 + j + 1.
+// pbf: item 0 is the header blob NewWriter emits (sizes[0] = 0, kind h); data blob k holds sizes[k] >= 1 elements with
+// ids k*1000 + j + 1, of the kind kinds[k]: n = dense nodes, w = ways, r = relations (written by osm.Writer, one Flush
+// per blob), p = plain (non-dense) nodes, m = mixed: plain nodes, ways and relations in one block (hand-made blocks,
+// uncompressed; in one PrimitiveGroup when k is even, in three when k is odd).
+func mixedCounts(s int) (int, int, int) { return (s + 2) / 3, (s + 1) / 3, s / 3 }
+
+func rawBlob(block *pb.PrimitiveBlock) []byte {
+	data, err := proto.Marshal(block)
+	if err != nil {
+		panic(err)
+	}
+	blob, err := proto.Marshal(&pb.Blob{Raw: data, RawSize: proto.Int32(int32(len(data)))})
+	if err != nil {
+		panic(err)
+	}
+	header, err := proto.Marshal(&pb.BlobHeader{Type: proto.String("OSMData"), Datasize: proto.Int32(int32(len(blob)))})
+	if err != nil {
+		panic(err)
+	}
+	var out bytes.Buffer
+	var length [4]byte
+	binary.BigEndian.PutUint32(length[0:], uint32(len(header)))
+	out.Write(length[0:])
+	out.Write(header)
+	out.Write(blob)
+	return out.Bytes()
+}
+
+func handMade(k int, kind string, size int) []byte {
+	id := func(j int) *int64 { return proto.Int64(int64(k*1000 + j + 1)) }
+	var nodes []*pb.Node
+	var ways []*pb.Way
+	var relations []*pb.Relation
+	a, b, c := size, 0, 0
+	if kind == "m" {
+		a, b, c = mixedCounts(size)
+	}
+	for j := 0; j < a; j++ {
+		nodes = append(nodes, &pb.Node{Id: id(j), Lat: proto.Int64(515000000), Lon: proto.Int64(-1000000)})
+	}
+	for j := a; j < a+b; j++ {
+		ways = append(ways, &pb.Way{Id: id(j), Refs: []int64{1, 1}})
+	}
+	for j := a + b; j < a+b+c; j++ {
+		relations = append(relations, &pb.Relation{Id: id(j), Memids: []int64{1}, Types: []pb.Relation_MemberType{pb.Relation_NODE}, RolesSid: []int32{0}})
+	}
+	block := &pb.PrimitiveBlock{Stringtable: &pb.StringTable{S: [][]byte{{}}}}
+	if k%2 == 0 {
+		block.Primitivegroup = []*pb.PrimitiveGroup{{Nodes: nodes, Ways: ways, Relations: relations}}
+	} else {
+		block.Primitivegroup = []*pb.PrimitiveGroup{{Nodes: nodes}, {Ways: ways}, {Relations: relations}}
+	}
+	return rawBlob(block)
+}
+
 func runPBF(r *Run, rec *recorder) error {
 	var buf bytes.Buffer
 	w, err := osm.NewWriter(&buf)
@@ -230,9 +314,25 @@ func runPBF(r *Run, rec *recorder) error {
 		panic(err)
 	}
 	for k := 1; k < len(r.Sizes); k++ {
+		kind := r.Kinds[k]
+		if kind == "p" || kind == "m" {
+			buf.Write(handMade(k, kind, r.Sizes[k]))
+			continue
+		}
 		for j := 0; j < r.Sizes[k]; j++ {
-			n := osm.Node{ID: osm.NodeID(k*1000 + j + 1), Location: osm.LatLng{Lat: 51.5, Lng: -0.1}}
-			if err := w.WriteNode(&n); err != nil {
+			id := k*1000 + j + 1
+			var err error
+			switch kind {
+			case "n":
+				err = w.WriteNode(&osm.Node{ID: osm.NodeID(id), Location: osm.LatLng{Lat: 51.5, Lng: -0.1}})
+			case "w":
+				err = w.WriteWay(&osm.Way{ID: osm.WayID(id), Nodes: []osm.NodeID{1, 2}})
+			case "r":
+				err = w.WriteRelation(&osm.Relation{ID: osm.RelationID(id), Members: []osm.Member{{Type: osm.ElementTypeNode, ID: 1, Role: "x"}}})
+			default:
+				panic("pbf: unknown blob kind " + kind)
+			}
+			if err != nil {
 				panic(err)
 			}
 		}
@@ -241,35 +341,252 @@ func runPBF(r *Run, rec *recorder) error {
 		}
 	}
 	emit := func(e osm.Element, goroutine int) error {
-		n, ok := e.(*osm.Node)
-		if !ok {
+		var id int
+		switch e := e.(type) {
+		case *osm.Node:
+			id = int(e.ID)
+		case *osm.Way:
+			id = int(e.ID)
+		case *osm.Relation:
+			id = int(e.ID)
+		default:
 			panic("pbf: unexpected element")
 		}
-		id := int(n.ID) - 1
+		id--
 		return rec.call(id/1000, id%1000, goroutine, 1)
 	}
 	return osm.ReadPBFWithOptions(bytes.NewReader(buf.Bytes()), emit, osm.ReadOptions{Cores: r.G})
 }
 
+// pbfSite names the loop of readPrimitiveGroup / readDenseNodes that emits sub-item j of blob k.
+func pbfSite(r *Run, k, j int) string {
+	switch r.Kinds[k] {
+	case "n":
+		return "densenode"
+	case "w":
+		return "way"
+	case "r":
+		return "relation"
+	case "p":
+		return "plainnode"
+	case "m":
+		a, b, _ := mixedCounts(r.Sizes[k])
+		switch {
+		case j < a:
+			return "mixed-plainnode"
+		case j < a+b:
+			return "mixed-way"
+		}
+		return "mixed-relation"
+	}
+	return "?"
+}
+
+// where in its item a sub-item sits
+func place(size, j int) string {
+	switch {
+	case size == 1:
+		return "only"
+	case j == 0:
+		return "first"
+	case j == size-1:
+		return "last"
+	}
+	return "inner"
+}
+
+// site is the histogram bucket (api, callback site) of a failing position.
+func site(r *Run, k, j int) string {
+	switch r.Proto {
+	case "eachitem":
+		// the ids of a bucket but the last are called from the inner loop, the last one by the trailing call
+		return "eachitem:" + place(r.Sizes[k], j)
+	case "pbf":
+		s := "pbf:" + pbfSite(r, k, j) + ":" + place(r.Sizes[k], j)
+		if k == len(r.Sizes)-1 {
+			s += ":lastblob"
+		}
+		return s
+	case "eachfeature":
+		kind := map[string]string{"p": "point", "a": "path", "A": "area", "r": "relation"}[r.Kinds[k]]
+		w := r.World
+		if w == "overlay" {
+			w += []string{"-own", "-base"}[r.phase(k)]
+		}
+		return "eachfeature:" + w + ":" + kind
+	case "modtags":
+		if k%3 == 2 {
+			return "modtags:deleted"
+		}
+		return "modtags:modified"
+	}
+	return r.Proto
+}
+
+const verifNS = b6.Namespace("diagonal.works/verif")
+
+// feature i of kind p (point), a (path), A (area) or r (relation); ids are i within each type.
+func featureID(kind string, i int) b6.FeatureID {
+	t := map[string]b6.FeatureType{"p": b6.FeatureTypePoint, "a": b6.FeatureTypePath, "A": b6.FeatureTypeArea, "r": b6.FeatureTypeRelation}[kind]
+	return b6.FeatureID{Type: t, Namespace: verifNS, Value: uint64(i)}
+}
+
+func makeFeature(kind string, i int) ingest.Feature {
+	lat, lng := 51.5+float64(i)*1e-3, -0.1
+	ll := func(dlat, dlng float64) s2.LatLng { return s2.LatLngFromDegrees(lat+dlat, lng+dlng) }
+	switch kind {
+	case "p":
+		return &ingest.GenericFeature{ID: featureID(kind, i), Tags: []b6.Tag{{Key: b6.PointTag, Value: b6.NewPointExpressionFromLatLng(ll(0, 0))}}}
+	case "a":
+		return &ingest.GenericFeature{ID: featureID(kind, i), Tags: []b6.Tag{{Key: b6.PathTag, Value: b6.NewExpressions([]b6.AnyExpression{
+			b6.PointExpression(ll(0, 0)), b6.PointExpression(ll(1e-4, 1e-4)), b6.PointExpression(ll(2e-4, 0)),
+		})}}}
+	case "A":
+		a := ingest.NewAreaFeature(1)
+		a.AreaID = b6.AreaID{Namespace: verifNS, Value: uint64(i)}
+		a.SetPolygon(0, s2.PolygonFromLoops([]*s2.Loop{s2.LoopFromPoints([]s2.Point{
+			s2.PointFromLatLng(ll(0, 0)), s2.PointFromLatLng(ll(0, 2e-4)), s2.PointFromLatLng(ll(2e-4, 1e-4)),
+		})}))
+		return a
+	case "r":
+		rel := ingest.NewRelationFeature(0)
+		rel.RelationID = b6.RelationID{Namespace: verifNS, Value: uint64(i)}
+		rel.Tags = b6.Tags{{Key: "type", Value: b6.NewStringExpression("verif")}}
+		return rel
+	}
+	panic("eachfeature: unknown feature kind " + kind)
+}
+
+// compact worlds are expensive to build: one per feature-kind list and child process
+var compactCache = map[string]*compactWorld{}
+
+type compactWorld struct {
+	w      b6.World
+	index  map[b6.FeatureID][2]int // feature → (bucket number over all blocks in enumeration order, rank in the bucket)
+	layout string                  // blocks separated by ` `, buckets by `|`, features by `,`; `-` = empty bucket
+}
+
+func buildCompact(kinds []string) *compactWorld {
+	key := strings.Join(kinds, "")
+	if cw, ok := compactCache[key]; ok {
+		return cw
+	}
+	fs := make([]ingest.Feature, len(kinds))
+	byID := map[b6.FeatureID]int{}
+	for i, k := range kinds {
+		fs[i] = makeFeature(k, i)
+		byID[fs[i].FeatureID()] = i
+	}
+	o := compact.Options{Goroutines: 2, PointsScratchOutputType: compact.OutputTypeMemory}
+	data, err := compact.BuildInMemory(ingest.MemoryFeatureSource(fs), &o)
+	if err != nil {
+		panic(err)
+	}
+	w, err := compact.NewWorldFromData(data)
+	if err != nil {
+		panic(err)
+	}
+	var h compact.Header
+	h.Unmarshal(data)
+	var fbs compact.FeatureBlocks
+	fbs.Unmarshal(data[h.BlockOffset:])
+	cw := &compactWorld{w: w, index: map[b6.FeatureID][2]int{}}
+	var blocks []string
+	bucket := 0
+	// World.EachFeature goes through the blocks of points, then paths, areas, relations
+	for _, t := range []b6.FeatureType{b6.FeatureTypePoint, b6.FeatureTypePath, b6.FeatureTypeArea, b6.FeatureTypeRelation} {
+		for _, fb := range fbs {
+			if fb.FeatureType != t {
+				continue
+			}
+			n := fb.Map.Layout.SentinelBucket()
+			per := make([][]uint64, n)
+			it := fb.Map.Begin()
+			for it.Next() {
+				b := fb.Map.Layout.BucketForID(it.ID())
+				per[b] = append(per[b], it.ID())
+			}
+			var bs []string
+			for b := 0; b < n; b++ {
+				ids := per[b]
+				sort.Slice(ids, func(i, j int) bool { return ids[i] < ids[j] })
+				var names []string
+				for rank, id := range ids {
+					fid := b6.FeatureID{Type: t, Namespace: verifNS, Value: id}
+					i, ok := byID[fid]
+					if !ok {
+						panic(fmt.Sprintf("compact: unknown feature %s in the index", fid))
+					}
+					cw.index[fid] = [2]int{bucket, rank}
+					names = append(names, fmt.Sprint(i))
+				}
+				if len(names) == 0 {
+					bs = append(bs, "-")
+				} else {
+					bs = append(bs, strings.Join(names, ","))
+				}
+				bucket++
+			}
+			blocks = append(blocks, strings.Join(bs, "|"))
+		}
+	}
+	cw.layout = hx.List(blocks)
+	compactCache[key] = cw
+	return cw
+}
+
 func runEachFeature(r *Run, rec *recorder) error {
+	index := map[b6.FeatureID]int{}
+	for i, k := range r.Kinds {
+		index[featureID(k, i)] = i
+	}
 	each := func(f b6.Feature, goroutine int) error {
-		return rec.call(int(f.FeatureID().Value), 0, goroutine, 1)
+		i, ok := index[f.FeatureID()]
+		if !ok {
+			panic(fmt.Sprintf("eachfeature: unexpected feature %s", f.FeatureID()))
+		}
+		return rec.call(i, 0, goroutine, 1)
 	}
 	options := &b6.EachFeatureOptions{Goroutines: r.G}
-	if r.Multi { // through a world
+	switch r.World {
+	case "direct":
+		byID := ingest.NewFeaturesByID()
+		for i, k := range r.Kinds {
+			byID.AddFeature(makeFeature(k, i))
+		}
+		return ingest.EachFeature(each, byID, ingest.NewFeatureReferences(), options)
+	case "basic":
 		w := ingest.NewBasicMutableWorld()
-		for i := range r.Sizes {
-			if err := w.AddFeature(pointFeature(i)); err != nil {
+		for i, k := range r.Kinds {
+			if err := w.AddFeature(makeFeature(k, i)); err != nil {
 				panic(err)
 			}
 		}
 		return w.EachFeature(each, options)
+	case "overlay":
+		base := ingest.NewBasicMutableWorld()
+		for i, k := range r.Kinds {
+			if r.phase(i) == 1 || i == 1 {
+				if err := base.AddFeature(makeFeature(k, i)); err != nil {
+					panic(err)
+				}
+			}
+		}
+		w := ingest.NewMutableOverlayWorld(base)
+		for i, k := range r.Kinds {
+			if r.phase(i) == 0 {
+				if err := w.AddFeature(makeFeature(k, i)); err != nil {
+					panic(err)
+				}
+			}
+		}
+		return w.EachFeature(each, options)
+	case "compact":
+		cw := buildCompact(r.Kinds)
+		rec.layout = cw.layout
+		return cw.w.EachFeature(each, options)
 	}
-	byID := ingest.NewFeaturesByID()
-	for i := range r.Sizes {
-		byID.AddFeature(pointFeature(i))
-	}
-	return ingest.EachFeature(each, byID, ingest.NewFeatureReferences(), options)
+	panic("eachfeature: unknown world " + r.World)
 }
 
 // modtags: item i is the modified tag (point i/2, key "k<i%2>").
@@ -383,59 +700,122 @@ func positions(sizes []int) [][2]int {
 	return ps
 }
 
-func shape(r *hx.Rand, proto string) []int {
-	switch proto {
+// fill gives a run the defaults of the dimensions it does not mention (corpus entries).
+func fill(run Run) Run {
+	if run.Proto == "pbf" && run.Kinds == nil {
+		run.Kinds = make([]string, len(run.Sizes))
+		for i := range run.Kinds {
+			run.Kinds[i] = "n"
+		}
+		run.Kinds[0] = "h"
+	}
+	if run.Proto == "eachfeature" {
+		if run.World == "" {
+			run.World = "direct"
+		}
+		if run.Kinds == nil {
+			run.Kinds = make([]string, len(run.Sizes))
+			for i := range run.Kinds {
+				run.Kinds[i] = "p"
+			}
+		}
+	}
+	return run
+}
+
+var worlds = []string{"direct", "basic", "overlay", "compact"}
+var featureKinds = []string{"p", "a", "A", "r"}
+var blobKinds = []string{"n", "w", "r", "p", "m", "r", "n"}
+
+// compact worlds are built once per kind list and child process, so only a few kind lists are used
+var compactTemplates = []string{"pppapArA", "ppppppaaAArr", "paAr", "ppaaAArrppar", "rAap"}
+
+func split(t string) []string {
+	out := make([]string, len(t))
+	for i := range t {
+		out[i] = t[i : i+1]
+	}
+	return out
+}
+
+func ones(n int) []int {
+	sizes := make([]int, n)
+	for i := range sizes {
+		sizes[i] = 1
+	}
+	return sizes
+}
+
+func shape(r *hx.Rand, run *Run) {
+	switch run.Proto {
 	case "eachitem":
 		n := 2 << r.Intn(3) // at least two buckets: the builder widens bucketBits to tagBits (= 1)
 		if r.Chance(1, 8) {
 			n = 16
 		}
-		sizes := make([]int, n)
-		for i := range sizes {
-			sizes[i] = r.Intn(4)
+		run.Sizes = make([]int, n)
+		for i := range run.Sizes {
+			run.Sizes[i] = r.Intn(6)
 			if r.Chance(1, 4) {
-				sizes[i] = 0
+				run.Sizes[i] = 0
 			}
 		}
-		return sizes
 	case "pbf":
 		n := 1 + r.Intn(10)
-		sizes := make([]int, n+1)
+		run.Sizes = make([]int, n+1)
+		run.Kinds = make([]string, n+1)
+		run.Kinds[0] = "h"
 		for i := 1; i <= n; i++ {
-			sizes[i] = 1 + r.Intn(3)
+			run.Sizes[i] = 1 + r.Intn(4)
+			run.Kinds[i] = blobKinds[r.Intn(len(blobKinds))]
 		}
-		return sizes
+	case "eachfeature":
+		run.World = worlds[r.Intn(len(worlds))]
+		if run.World == "compact" {
+			run.Kinds = split(compactTemplates[r.Intn(len(compactTemplates))])
+		} else {
+			n := 1 + r.Intn(12)
+			if r.Chance(1, 10) {
+				n = 13 + r.Intn(20)
+			}
+			run.Kinds = make([]string, n)
+			for i := range run.Kinds {
+				run.Kinds[i] = featureKinds[r.Intn(len(featureKinds))]
+			}
+		}
+		run.Sizes = ones(len(run.Kinds))
 	default:
 		n := 1 + r.Intn(12)
 		if r.Chance(1, 10) {
 			n = 13 + r.Intn(20)
 		}
-		sizes := make([]int, n)
-		for i := range sizes {
-			sizes[i] = 1
-		}
-		return sizes
+		run.Sizes = ones(n)
 	}
 }
 
-// systematic sweep: protocol × goroutine count × failing position on a fixed shape (cases 0 … sweepN-1)
-var sweepShapes = map[string][]int{
-	"eachitem":    {2, 1, 3, 1, 0, 2, 1, 1},
-	"memread":     {1, 1, 1, 1, 1, 1, 1, 1, 1, 1},
-	"pbf":         {0, 2, 1, 3, 1, 1, 2},
-	"eachfeature": {1, 1, 1, 1, 1, 1, 1, 1, 1, 1},
-	"modtags":     {1, 1, 1, 1, 1, 1, 1, 1, 1, 1},
-}
-
+// systematic sweep: protocol (× world) × goroutine count × failing position on a fixed shape (cases 0 … sweepN-1)
 func sweep() []Run {
 	var out []Run
-	for _, p := range protos {
+	add := func(base Run) {
 		for _, g := range gs {
-			for _, pos := range positions(sweepShapes[p]) {
-				out = append(out, Run{Proto: p, G: g, MP: 4, Sizes: sweepShapes[p], Fail: [][2]int{pos}, Multi: p == "eachitem"})
+			for _, pos := range positions(base.Sizes) {
+				run := base
+				run.G, run.MP, run.Fail = g, 4, [][2]int{pos}
+				out = append(out, run)
 			}
 		}
 	}
+	add(Run{Proto: "eachitem", Sizes: []int{2, 1, 4, 1, 0, 2, 1, 1}, Multi: true})
+	add(Run{Proto: "memread", Sizes: ones(10)})
+	add(Run{Proto: "pbf", Sizes: []int{0, 2, 2, 3, 1, 3, 2}, Kinds: split("hnwrpmr")})
+	for _, w := range worlds {
+		if w == "overlay" { // every feature kind among the overlay's own features (0 1 3 6 9) and among the base world's
+			add(Run{Proto: "eachfeature", World: w, Kinds: split("paArpaArpaAr"), Sizes: ones(12)})
+		} else {
+			add(Run{Proto: "eachfeature", World: w, Kinds: split("pppapArA"), Sizes: ones(8)})
+		}
+	}
+	add(Run{Proto: "modtags", Sizes: ones(10)})
 	return out
 }
 
@@ -458,7 +838,7 @@ func genRun(seed uint64, no int) Run {
 	if r.Chance(1, 10) {
 		run.G = 1 + r.Intn(8)
 	}
-	run.Sizes = shape(r, run.Proto)
+	shape(r, &run)
 	run.Multi = r.Bool()
 	run.Once = r.Chance(1, 3)
 	ps := positions(run.Sizes)
@@ -499,10 +879,26 @@ var corpus = []Run{
 	// the errgroup protocols with everything failing
 	{Proto: "eachfeature", G: 1, MP: 4, Sizes: []int{1, 1, 1, 1}, Fail: [][2]int{{0, 0}, {1, 0}, {2, 0}, {3, 0}}},
 	{Proto: "modtags", G: 1, MP: 4, Sizes: []int{1, 1, 1, 1}, Fail: [][2]int{{0, 0}, {1, 0}, {2, 0}, {3, 0}}},
+	// ReadPBF: a callback error on a RELATION (first / middle / last of its group, last blob; also in a mixed block)
+	// must be reported like one on a node or a way (seeded change C28-1 dropped it)
+	{Proto: "pbf", G: 1, MP: 4, Sizes: []int{0, 2, 3}, Kinds: []string{"h", "n", "r"}, Fail: [][2]int{{2, 0}}},
+	{Proto: "pbf", G: 2, MP: 4, Sizes: []int{0, 1, 3, 2}, Kinds: []string{"h", "w", "r", "n"}, Fail: [][2]int{{2, 1}}},
+	{Proto: "pbf", G: 3, MP: 2, Sizes: []int{0, 2, 3}, Kinds: []string{"h", "w", "r"}, Fail: [][2]int{{2, 2}}},
+	{Proto: "pbf", G: 1, MP: 4, Sizes: []int{0, 3, 3}, Kinds: []string{"h", "m", "m"}, Fail: [][2]int{{2, 2}}},
+	{Proto: "pbf", G: 2, MP: 4, Sizes: []int{0, 3, 2}, Kinds: []string{"h", "p", "w"}, Fail: [][2]int{{1, 1}}},
+	// EachFeature through every kind of world, failing on a relation / an area / a base-world feature
+	{Proto: "eachfeature", World: "basic", G: 2, MP: 4, Sizes: ones(4), Kinds: split("paAr"), Fail: [][2]int{{3, 0}}},
+	{Proto: "eachfeature", World: "overlay", G: 1, MP: 4, Sizes: ones(8), Kinds: split("pppapArA"), Fail: [][2]int{{5, 0}}},
+	{Proto: "eachfeature", World: "overlay", G: 2, MP: 4, Sizes: ones(8), Kinds: split("pppapArA"), Fail: [][2]int{{6, 0}}},
+	{Proto: "eachfeature", World: "compact", G: 1, MP: 4, Sizes: ones(4), Kinds: split("paAr"), Fail: [][2]int{{3, 0}}},
+	{Proto: "eachfeature", World: "compact", G: 2, MP: 4, Sizes: ones(8), Kinds: split("pppapArA"), Fail: [][2]int{{5, 0}}},
 }
 
 func note(c *hx.Ctx, r *Run, ans string) {
 	c.Note("proto:" + r.Proto)
+	if r.Proto == "eachfeature" {
+		c.Note("world:" + r.World)
+	}
 	c.Note(fmt.Sprintf("g:%d", r.G))
 	c.Note(fmt.Sprintf("mp:%d", r.MP))
 	c.Note(fmt.Sprintf("items:%d", len(r.Sizes)/4*4))
@@ -511,6 +907,7 @@ func note(c *hx.Ctx, r *Run, ans string) {
 		c.Note("fail:none")
 	case n == 1:
 		c.Note("fail:one")
+		c.Note("site:" + site(r, r.Fail[0][0], r.Fail[0][1]))
 		ps := positions(r.Sizes)
 		for i, p := range ps {
 			if p == r.Fail[0] {
@@ -550,6 +947,7 @@ func main() {
 			runs := make([]Run, 0, 2*len(corpus))
 			for _, r := range corpus {
 				for _, y := range []uint64{1, 2} {
+					r := fill(r)
 					r.Y = y
 					runs = append(runs, r)
 				}
